@@ -51,7 +51,10 @@ struct Rng {
 };
 static thread_local Rng tl_rng;
 
+static thread_local std::vector<Rng> tl_stack;
 void rng_seed(uint64_t seed) { tl_rng.seed(seed); }
+void rng_push(uint64_t seed) { tl_stack.push_back(tl_rng); tl_rng = Rng(); tl_rng.seed(seed); }
+void rng_pop() { if (!tl_stack.empty()) { tl_rng = tl_stack.back(); tl_stack.pop_back(); } }
 void rng_script(const std::vector<unsigned char> &bytes) { tl_rng.script.insert(tl_rng.script.end(), bytes.begin(), bytes.end()); }
 void rng_script_requests(const std::vector<int> &fills) { tl_rng.req_fill.assign(fills.begin(), fills.end()); }
 void rng_script_clear() { tl_rng.script.clear(); tl_rng.req_fill.clear(); }
